@@ -54,12 +54,12 @@ theorem gearbox_stepStable (L i o : Nat) (hi : 0 < i) (ho : 0 < o) (hiL : i ∣ 
           (sr.drop (o * ocount)).take o := by
         rw [hr1, hw, hr0, List.take_append_of_le_length (by simp; exact hv)]
       simp only [gearbox, Elem.out, Elem.step, hxv, hroom, hv, decide_true, Bool.and_false, Bool.and_true,
-        Bool.true_and, Bool.not_false, if_true, Bool.false_eq_true, if_false, decide_eq_true_eq]
+        Bool.not_false, if_true, Bool.false_eq_true, if_false, decide_eq_true_eq]
       exact ⟨by omega, by rw [hdata]⟩
     · have hna : (xv && decide (level + i < L)) = false := by
         cases hx : xv <;> simp_all
       simp only [gearbox, Elem.out, Elem.step, hna, hv, decide_true, Bool.and_false, Bool.false_and,
-        Bool.false_eq_true, if_false, decide_eq_true_eq]
+        Bool.false_eq_true, if_false]
       exact ⟨trivial, trivial⟩
 
 /-- In every cooperative cycle the gearbox accepts or delivers (`level < o → level + i < io_lcm`). -/
